@@ -88,7 +88,30 @@ def build_shuffled(r, t, v, schema, explicit_defaults):
         else:
             obj['f%d' % idx] = comp
         return obj
+    if r.random() < 0.25:
+        d = derived_scalar(t, v, schema)
+        if d is not None:
+            return d
     return gen.build_value(t, v, schema)
+
+
+def derived_scalar(t, v, schema):
+    """the scalar held by an object of a *derived, more constrained* subtype of the declared type (which a
+    container accepts wherever it accepts the declared type): same abstract value, another route"""
+    from pyasn1.type import constraint
+    k = gen.base_of(t)[0]
+    try:
+        if k in ('int', 'enum'):
+            sub = schema.subtype(subtypeSpec=constraint.ValueRangeConstraint(v[1], v[1]))
+        elif k == 'str':
+            sub = schema.subtype(subtypeSpec=constraint.ValueSizeConstraint(0, len(v[1]) + 1))
+        elif k == 'bits':
+            sub = schema.subtype(subtypeSpec=constraint.ValueSizeConstraint(0, len(v[1]) + 1))
+        else:
+            return None
+        return gen.build_value(t, v, sub)
+    except error.PyAsn1Error:
+        return None
 
 
 def enc(cdc, obj, **kw):
